@@ -29,19 +29,22 @@ SCENARIOS = os.path.join(os.path.dirname(os.path.abspath(__file__)), "C23_scenar
 
 # (cfg, what, expected violation or None, thorough only)
 PROTOCOL_RUNS = [
-    ("SeriesCache_mc.cfg", "protocol: 2 chunks x 2 slots, 2 requests (all edge ranges), 1 invalidation, 1 trim, 1 failure", None, False),
-    ("SeriesCache_mc1.cfg", "protocol: 1 chunk, 2 requests, 2 invalidations, trim, failure, play/forced requests", None, False),
+    ("SeriesCache_mc.cfg", "protocol: 2 chunks x 2 slots, 2 requests (all ranges), 1 invalidation", None, False),
+    ("SeriesCache_mc1.cfg", "protocol: 1 chunk, 2 requests, invalidation, trim, load failure", None, False),
+    ("SeriesCache_mcp.cfg", "protocol: play mode (stale accepted) and forced loads", None, False),
     ("SeriesCache_live.cfg", "liveness: every request returns (fair loaders)", None, False),
     ("SeriesCache_orig_await.cfg", "before the repair: a request joins a load that finished before the invalidation", "invariant:CexExport", False),
-    ("SeriesCache_mc_big.cfg", "protocol: 2 chunks x 2 slots, 3 requests, 1 invalidation, 1 trim, 1 failure", None, True),
+    ("SeriesCache_half_await.cfg", "half repair (only maybeAddChunk): a superseded load still publishes", "invariant:CexExport", False),
+    ("SeriesCache_mc2_big.cfg", "protocol: 2 chunks x 2 slots, 2 requests, 1 invalidation, 1 trim, 1 failure", None, True),
+    ("SeriesCache_mc1g3_big.cfg", "protocol: 1 chunk, 3 requests, invalidation, trim, failure", None, True),
+    ("SeriesCache_mc_big.cfg", "protocol: 2 chunks x 2 slots, 3 requests (whole chunks), 1 invalidation", None, True),
     ("SeriesCache_mc_gap_big.cfg", "protocol: 3 chunks, 3 requests (gap chunks: several loads of one chunk in flight)", None, True),
     ("SeriesCache_mc_inv2_big.cfg", "protocol: 1 chunk, 3 requests, 2 invalidations", None, True),
-    ("SeriesCache_mc_play_big.cfg", "protocol: play mode (stale accepted) and forced loads", None, True),
+    ("SeriesCache_mc_play_big.cfg", "protocol: play mode and forced loads, 2 invalidations, failure", None, True),
     ("SeriesCache_mc_open_big.cfg", "protocol: last chunk still open (always reloaded)", None, True),
     ("SeriesCache_mc_linger_big.cfg", "protocol: last chunk in the linger period (served and reloaded)", None, True),
-    ("SeriesCache_live_big.cfg", "liveness big", None, True),
-    ("SeriesCache_orig_publish.cfg", "before the repair: a load superseded through a gap chunk publishes", "invariant:CexExport", True),
-    ("SeriesCache_half_await.cfg", "half repair (only maybeAddChunk): superseded loads still publish", "invariant:CexExport", True),
+    ("SeriesCache_live_big.cfg", "liveness with trim", None, True),
+    ("SeriesCache_overlap_inv.cfg", "what-if outside the assumption: overlapping invalidate calls move invalidatedAt backwards", "invariant:CexExport", True),
 ]
 MEM_RUNS = [
     ("SeriesCacheMem_mc.cfg", "memory limits: 2 loads, hard 3 / soft 2", None, False),
@@ -63,15 +66,16 @@ def model_checks(ctx):
             if big and not th:
                 continue
             res = ctx.tlc(module, cfg, timeout=3000 if th else 900, name=what, expect_violation=bool(want),
-                          coverage=(th and cfg == "SeriesCache_mc_big.cfg"), workers=8)
+                          coverage=(th and cfg == "SeriesCache_mc2_big.cfg"), workers=8)
             ctx.log("%s: %d states, %d distinct, %.0fs%s" % (cfg, res.generated, res.distinct, res.wall,
                                                                   " -> " + str(res.violated) if res.violated else ""))
             if want:
                 if res.violated != want:
                     raise Infra("specification lost its teeth: %s should give %s, got %s" % (cfg, want, res.violated))
                 demo[cfg] = res.violated
-                for b in res.behaviours[:3]:
-                    cex.append((cfg, b))
+                if cfg in CFG_CS:
+                    for b in res.behaviours[:3]:
+                        cex.append((cfg, b))
             else:
                 ctx.require_model_ok(res, what)
     ctx.ev.set("exhaustive", True)
@@ -79,7 +83,7 @@ def model_checks(ctx):
     return cex
 
 
-CFG_CS = {"SeriesCache_orig_await.cfg": 2, "SeriesCache_orig_publish.cfg": 1, "SeriesCache_half_await.cfg": 2,
+CFG_CS = {"SeriesCache_orig_await.cfg": 2, "SeriesCache_half_await.cfg": 2,
           "SeriesCache_beh.cfg": 2, "SeriesCache_beh3.cfg": 1}
 
 
